@@ -263,6 +263,10 @@ pub fn main(args: &[String]) -> i32 {
         writeln!(out, "{c}").unwrap();
     }
     for sc in scen.iter() {
+        if sc["acc"].as_bool().unwrap_or(false) {
+            crate::c08a::run(sc, &mut out);
+            continue;
+        }
         let items: Vec<J> = sc["items"].as_array().cloned().unwrap_or_default();
         let rel = PubRel { items: items.clone() };
         let r = catch_unwind(AssertUnwindSafe(|| {
